@@ -22,7 +22,7 @@ type FuncResult struct {
 }
 
 func newState(ex *Exec) *State {
-	st := &State{heaps: map[string]Term{}, hsorts: map[string]string{}, globals: map[string]Term{}, ghosts: map[string]Term{}, gsorts: map[string]string{}, panicOK: map[string]bool{}}
+	st := &State{heaps: map[string]Term{}, hsorts: map[string]string{}, hver: map[string]int{}, pending: map[string][]pendingFrame{}, globals: map[string]Term{}, ghosts: map[string]Term{}, gsorts: map[string]string{}, panicOK: map[string]bool{}}
 	ex.d.declConst("alloc@0", SInt)
 	st.alloc0 = mk(SInt, "alloc@0")
 	st.alloc = st.alloc0
